@@ -29,6 +29,8 @@ PURE_FUNCS = {
     'all', 'reversed', 'id', 'frozenset', 'issubclass', 'callable', 'divmod', 'pow', 'ord', 'chr', 'format',
     'iter', 'map', 'filter',
 }
+PURE_QUALIFIED = {'math.fsum', 'math.sqrt', 'math.floor', 'math.ceil', 'math.isnan', 'math.isinf', 'math.isfinite', 'math.fabs',
+                  'math.log', 'math.exp', 'math.pow', 'math.copysign'}
 PURE_METHODS = {'keys', 'values', 'items', 'get', 'size', 'copy', 'index', 'count', 'format', 'join',
                 'startswith', 'endswith', 'byte_size', 'all_flows', 'number_of_nodes', 'nodes', 'neighbors',
                 'todict', 'flow2class', 'split', 'strip', 'lower', 'upper'}
@@ -248,6 +250,14 @@ class Executor:
         self.call_stack: List[FuncInfo] = []
         self.npaths = 0
         self._ordinals: Dict[int, str] = {}
+
+    def depth(self) -> int:
+        """inlining depth: frames of private helpers (`_name`) are not counted - a template method with a private hook, or
+        a helper extracted from a helper, must not move what lies below it out of reach (recursion is excluded by the
+        call-stack membership test, and at most 12 frames in all)"""
+        if len(self.call_stack) >= 12:
+            return 10 ** 6
+        return sum(1 for f in self.call_stack if not (f.name.startswith('_') and not f.name.startswith('__')))
 
     def is_virtual(self, meth: str) -> bool:
         """a call self.<meth>() is left as a dynamic dispatch when a subclass of the context class overrides the method
@@ -1590,7 +1600,7 @@ class _Ev:
                 and not v.func.attr.startswith('__'):
             target = x.ctx.lookup(v.func.attr)
             if target is not None and target.is_generator() and not x.is_virtual(v.func.attr) \
-                    and v.func.attr not in x.opts.no_inline and len(x.call_stack) < x.opts.inline_depth \
+                    and v.func.attr not in x.opts.no_inline and x.depth() < x.opts.inline_depth \
                     and target.normalized() not in x.call_stack:
                 res = []
                 argexprs = list(v.args) + [k.value for k in v.keywords]
@@ -1683,10 +1693,10 @@ class _Ev:
             if _is_exception_name(fname) and fname not in st.locals:
                 # constructing an exception object has no effect; its arguments are messages
                 return [(st, ast.Call(func=name(fname), args=[], keywords=[]), None)]
-            if fname in PURE_FUNCS or fname in x.opts.pure_calls:
+            if fname in PURE_FUNCS or fname in x.opts.pure_calls or fname in PURE_QUALIFIED:
                 return [(st, ast.Call(func=name(fname), args=args,
                                       keywords=[ast.keyword(arg=k, value=v) for k, v in kwargs]), None)]
-            if r and r[0] == 'func' and len(x.call_stack) < x.opts.inline_depth and r[1].name not in x.opts.no_inline \
+            if r and r[0] == 'func' and x.depth() < x.opts.inline_depth and r[1].name not in x.opts.no_inline \
                     and not r[1].is_generator():
                 out = self.inline(r[1], args, dict(kwargs), st, receiver=None)
                 if out is not None:
@@ -1708,7 +1718,7 @@ class _Ev:
                     # e.g. list.append / object.__init__
                     return self.effect_call('super().' + meth, ast.Attribute(value=recv, attr=meth, ctx=ast.Load()),
                                             args, kwargs, st, ln)
-                if len(x.call_stack) < x.opts.inline_depth and target.normalized() not in x.call_stack and not target.is_generator() \
+                if x.depth() < x.opts.inline_depth and target.normalized() not in x.call_stack and not target.is_generator() \
                         and meth not in x.opts.no_inline:
                     out = self.inline(target, args, dict(kwargs), st)
                     if out is not None:
@@ -1736,7 +1746,7 @@ class _Ev:
                         # generator construction: a pure term; the effect happens where it is spawned
                         return [(st, ast.Call(func=ast.Attribute(value=recv, attr=meth, ctx=ast.Load()), args=args,
                                               keywords=[ast.keyword(arg=k, value=v) for k, v in kwargs]), None)]
-                    if len(x.call_stack) < x.opts.inline_depth and target.normalized() not in x.call_stack:
+                    if x.depth() < x.opts.inline_depth and target.normalized() not in x.call_stack:
                         out = self.inline(target, args, dict(kwargs), st)
                         if out is not None:
                             return out
@@ -1756,6 +1766,35 @@ class _Ev:
                                           keywords=[ast.keyword(arg=k, value=v) for k, v in kwargs]), None)]
                 return self.effect_call('self.' + meth, ast.Attribute(value=recv, attr=meth, ctx=ast.Load()),
                                         args, kwargs, st, ln)
+            # Cls.m(...) / module.f(...) / module.Cls(...): the receiver is a class or a module of the repository
+            sr = self.static_ref(f.value, st)
+            if sr is not None:
+                kind, obj = sr
+                if kind == 'module':
+                    r2 = x.repo.resolve_name(obj, meth)
+                    if r2 and r2[0] == 'class':
+                        a2, k2 = bind_keywords(ctor_params(r2[1]), args, kwargs)
+                        return self.effect_call(r2[1].name, name(r2[1].name), a2, k2, st, ln)
+                    if r2 and r2[0] == 'func' and x.depth() < x.opts.inline_depth and r2[1].name not in x.opts.no_inline \
+                            and not r2[1].is_generator():
+                        out = self.inline(r2[1], args, dict(kwargs), st, receiver=None)
+                        if out is not None:
+                            return out
+                    if r2 and r2[0] == 'func':
+                        return self.effect_call(meth, name(meth), args, kwargs, st, ln)
+                elif kind == 'class':
+                    target = obj.lookup(meth)
+                    if target is not None and not target.is_generator() and x.depth() < x.opts.inline_depth \
+                            and target.normalized() not in x.call_stack and meth not in x.opts.no_inline:
+                        decs = target.decorators()
+                        out = None
+                        if 'staticmethod' in decs:
+                            out = self.inline(target, args, dict(kwargs), st, receiver=None)
+                        elif args and term(args[0]) == 'self' and x.ctx is not None and obj in x.ctx.mro() and 'classmethod' not in decs:
+                            # explicit base call  Base.m(self, ...): what super().m(...) resolves to when Base is next
+                            out = self.inline(target, args[1:], dict(kwargs), st)
+                        if out is not None:
+                            return out
             # X.pop(k) is  v = X[k]; del X[k]  (dict key or list index alike)
             if meth == 'pop' and len(args) == 1 and not kwargs and not self.pure:
                 node = ast.Subscript(value=recv, slice=args[0], ctx=ast.Load())
@@ -1769,7 +1808,7 @@ class _Ev:
                 return [(st, val, None)]
             # module function through import (random.uniform, heapq.heappush ...)
             full = rterm + '.' + meth
-            if meth in PURE_METHODS or full in x.opts.pure_calls or full == 'dict.fromkeys':
+            if meth in PURE_METHODS or full in x.opts.pure_calls or full == 'dict.fromkeys' or full in PURE_QUALIFIED:
                 return [(st, ast.Call(func=ast.Attribute(value=recv, attr=meth, ctx=ast.Load()), args=args,
                                       keywords=[ast.keyword(arg=k, value=v) for k, v in kwargs]), None)]
             if kwargs:
@@ -1794,6 +1833,38 @@ class _Ev:
             else:
                 res.extend(self.opaque_call(term(fv), fv, args, kwargs, s2, ln))
         return res
+
+    def static_ref(self, e, st, depth=0):
+        """('class', ClassInfo) | ('module', Module) when the expression names a class / module of the repository"""
+        repo = self.x.repo
+        if depth > 4:
+            return None
+        if isinstance(e, ast.Name):
+            if e.id in st.locals or e.id == 'self':
+                return None
+            try:
+                r = repo.resolve_name(self.fctx.module, e.id)
+            except Exception:  # pragma: no cover
+                return None
+            if r and r[0] == 'class':
+                return ('class', r[1])
+            if r and r[0] == 'module':
+                return ('module', r[1])
+            if r and r[0] == 'ext' and r[1] in repo.modules:
+                return ('module', repo.modules[r[1]])
+            return None
+        if isinstance(e, ast.Attribute):
+            base = self.static_ref(e.value, st, depth + 1)
+            if base and base[0] == 'module':
+                r = repo.resolve_name(base[1], e.attr)
+                if r and r[0] == 'class':
+                    return ('class', r[1])
+                if r and r[0] == 'module':
+                    return ('module', r[1])
+                sub = repo.modules.get(base[1].name + '.' + e.attr)
+                if sub is not None:
+                    return ('module', sub)
+        return None
 
     def opaque_call(self, callee, fv, args, kwargs, st, ln):
         return self.effect_call(callee, fv, args, kwargs, st, ln)
